@@ -2,6 +2,7 @@ package main
 
 import (
 	"fmt"
+	"go/ast"
 	"go/types"
 	"runtime/debug"
 	"strings"
@@ -129,6 +130,17 @@ func (w *World) verifyFunc(fn *ssa.Function, ct *Contract, mode Mode) (res *Func
 		return
 	}
 	if ct != nil {
+		// a reassigned parameter has different values at entry (call sites see that one) and at return
+		for _, p := range fn.Params {
+			if !paramReassigned(fn, p) {
+				continue
+			}
+			for _, c := range ct.Ensures {
+				if mentionsIdent(c.Expr, p.Name()) {
+					panic(evalError{fmt.Sprintf("%s:%d: parameter %s is reassigned in the body; write %s0 (entry value) in ensures", strings.TrimPrefix(c.File, "/repo/"), c.Line, p.Name(), p.Name())})
+				}
+			}
+		}
 		penv := e.envAt(fr, exit, fn.Pos())
 		var rt types.Type = fn.Signature.Results()
 		bindResults(penv, packResults(vals, rt), fn, fn.Signature)
@@ -173,4 +185,34 @@ func shortStack(b []byte) string {
 		}
 	}
 	return strings.Join(out, "\n")
+}
+
+func paramReassigned(fn *ssa.Function, p *ssa.Parameter) bool {
+	for _, b := range fn.Blocks {
+		for _, in := range b.Instrs {
+			st, ok := in.(*ssa.Store)
+			if !ok {
+				continue
+			}
+			a, ok := st.Addr.(*ssa.Alloc)
+			if !ok || a.Comment != p.Name() || a.Pos() != p.Pos() {
+				continue
+			}
+			if st.Val != ssa.Value(p) {
+				return true
+			}
+		}
+	}
+	return false
+}
+
+func mentionsIdent(x ast.Expr, name string) bool {
+	found := false
+	ast.Inspect(x, func(n ast.Node) bool {
+		if id, ok := n.(*ast.Ident); ok && id.Name == name {
+			found = true
+		}
+		return true
+	})
+	return found
 }
